@@ -134,6 +134,11 @@ type c16Secret struct {
 }
 
 func c16Run(c *Ctx) {
+	if c.Sub("api?").Intn(16) == 3 {
+		// options registered through the public AddOption API in help and man page
+		apiMiniDoc(c)
+		return
+	}
 	r := c.R
 	d := GenDecl(c.Sub("d"), c16Cfg())
 	// a visible group nested inside a hidden group is not ranked by the statement: hide the whole subtree
